@@ -37,12 +37,17 @@ Requests (answers):
   fromproto <guard 0|1> <shards> <index> <root> <siblings hex,…> <publisher> <sig> <committee> <nonce>
         -> ok <committee> <publisher> <root> <siblings> <sig> <index> <shards> <nonce> | err:<class> | panic
   toproto-roundtrip: not a request (UnitFromProto(ToProto(u)) is compared through fromproto)
-  preset <cfg> <pcfg> <local> <peers> -> ok | err:<class>      (new scheduler, empty processor)
+  preset <cfg> <pcfg> <local> <peers> [<maxWorkers> <maxPerPublisher>] -> ok | err:<class>
+                                              (new scheduler, empty processor; bounds default 1000 250)
   pstep <sigok 00|01|10|11> <committee> <publisher> <root> <proof> <sig> <index> <shards> <nonce> <sender>
         -> need-rs <shard|~,…>   the unit completes the build threshold: the harness answers with
            `prs none` | `prs <hex,hex,…>` (the real RecoverData on these shards), and gets the outcome
         -> handled <bcast> <built hex|none> <ended none|ok|err> | ignored | noroute | panic
            <bcast> = `-` or `idx:shard:proof:root:sig:nonce:committee:publisher` joined by `+`
+           every outcome is followed by ` | <tasks> <publisherTasks[publisher of the unit]>` (the task
+           counters after the step; noroute also when a bound of `increaseTasks` is reached)
+  pexpire <committee> <publisher> <root> <nonce> -> expired | none, then ` | <tasks> <publisherTasks>`
+           (the subprocessor of this message key reaches its time-out)
 <pcfg> is four characters 0/1: wireGuard noPoison localFromPresent keyGuard.
 <sigok> of pstep is two characters: signature verifies, publisher id embeds a key.
 <cfg> is five characters 0/1: unpadGuard rootFromPresent shardingLeafProto validatorLeafProto nonceSet.
@@ -162,7 +167,8 @@ structure St where
   pcfg : PCfg := PCfg.pinned
   sched : Option Sched := none
   routes : Routes HTerm := []
-  proc : Proc HTerm := Proc.empty
+  proc : TProc HTerm := TProc.empty
+  bounds : Bounds := Bounds.real
   pending : Option (Bool × Bool × PUnit HTerm × Bytes) := none
 
 /-- RS parameter of one `create`/`construct` request: the answers of the real library are part of
@@ -206,12 +212,14 @@ answer for exactly these shards from the real library.) -/
 def needsCodec (s : St) (sc : Sched) (sigok hasKey : Bool) (u : PUnit HTerm) (sender : Bytes) :
     Option (List (Option Bytes)) :=
   let key := keyOf u
-  if s.proc.finalized.contains key then none else
-  if (s.proc.findSub key).isNone && !hasKey then none else
+  if s.proc.core.finalized.contains key then none else
+  if (s.proc.core.findSub key).isNone && !hasKey then none else
+  if wouldCreate s.pcfg (sigOracle sigok hasKey) sc s.proc.core u &&
+      (s.proc.ptasks key.publisher == s.bounds.maxPerPublisher || s.proc.tasks == s.bounds.maxWorkers) then none else
   match sc.shardIndexFor key.publisher with
   | .error _ => none
   | .ok _ =>
-    let st := (s.proc.findSub key).getD (SubState.fresh sc.total)
+    let st := (s.proc.core.findSub key).getD (SubState.fresh sc.total)
     match st.built with
     | some _ => none
     | none =>
@@ -223,8 +231,9 @@ def needsCodec (s : St) (sc : Sched) (sigok hasKey : Bool) (u : PUnit HTerm) (se
 
 def runPStep (s : St) (sc : Sched) (sigok hasKey : Bool) (u : PUnit HTerm) (sender : Bytes)
     (rec : Option (List Bytes)) : St × String :=
-  let (p', out) := procStep s.cfg s.pcfg termFns (rsOracle [] rec) (sigOracle sigok hasKey) sc s.proc u sender
-  ({ s with proc := p', pending := none }, procOutStr out)
+  let (p', out) := tprocStep s.bounds s.cfg s.pcfg termFns (rsOracle [] rec) (sigOracle sigok hasKey) sc s.proc u sender
+  ({ s with proc := p', pending := none },
+    procOutStr out ++ " | " ++ toString p'.tasks ++ " " ++ toString (p'.ptasks (keyOf u).publisher))
 
 def wireErr : WireErr → String
   | .noShards => "no-shards" | .shardLen => "shard-len" | .rootLen => "root-len"
@@ -352,8 +361,23 @@ def step (s : St) (line : String) : St × String :=
     match cfg? c, pcfg? pc, hexToBytes? loc, hexList? peers with
     | some c, some pc, some loc, some peers =>
       match newScheduler loc peers with
-      | .ok sc => ({ s with cfg := c, pcfg := pc, sched := some sc, proc := Proc.empty, pending := none }, "ok")
-      | .error e => ({ s with sched := none, proc := Proc.empty, pending := none }, "err:" ++ schedErr e)
+      | .ok sc => ({ s with cfg := c, pcfg := pc, sched := some sc, proc := TProc.empty, bounds := Bounds.real, pending := none }, "ok")
+      | .error e => ({ s with sched := none, proc := TProc.empty, pending := none }, "err:" ++ schedErr e)
+    | _, _, _, _ => (s, "bad-op")
+  | ["preset", c, pc, loc, peers, mw, mp] =>
+    match cfg? c, pcfg? pc, hexToBytes? loc, hexList? peers, mw.toNat?, mp.toNat? with
+    | some c, some pc, some loc, some peers, some mw, some mp =>
+      match newScheduler loc peers with
+      | .ok sc => ({ s with cfg := c, pcfg := pc, sched := some sc, proc := TProc.empty, bounds := ⟨mw, mp⟩, pending := none }, "ok")
+      | .error e => ({ s with sched := none, proc := TProc.empty, pending := none }, "err:" ++ schedErr e)
+    | _, _, _, _, _, _ => (s, "bad-op")
+  | ["pexpire", committee, publisher, root, nonce] =>
+    match hexToBytes? committee, hexToBytes? publisher, term? root, nonce.toNat? with
+    | some committee, some publisher, some root, some nonce =>
+      let key : MsgKey HTerm := ⟨committee, publisher, root, nonce⟩
+      let live := (s.proc.core.findSub key).isSome
+      let p' := tprocExpire s.proc key
+      ({ s with proc := p' }, (if live then "expired" else "none") ++ " | " ++ toString p'.tasks ++ " " ++ toString (p'.ptasks publisher))
     | _, _, _, _ => (s, "bad-op")
   | ["pstep", sigok, committee, publisher, root, proof, sig, idx, shards, nonce, sender] =>
     match s.sched, hexToBytes? committee, hexToBytes? publisher, term? root, terms? proof,
